@@ -56,6 +56,28 @@ Definition impl_t_param (self_by_value : bool) : gparam :=
   let bounds := [core_marker "Sync"] ++ (if self_by_value then [core_marker "Send"] else []) ++ [[pc "'"; TId "static"]] in
   mkGP GType [] "EntraitT" ([pc ":"] ++ join [pc "+"] bounds) bounds.
 
+(** an impl header declares no defaults: everything from the first [=] outside angle brackets on is dropped
+    ([->] does not close a bracket) *)
+Fixpoint cut_default (ts : toks) (depth : nat) (prev_minus : bool) : toks :=
+  match ts with
+  | [] => []
+  | t :: r =>
+      if is_p "=" t && Nat.eqb depth 0 then []
+      else t :: cut_default r (if is_p "<" t then S depth
+                               else if is_p ">" t && negb prev_minus then Nat.pred depth else depth)
+                            (is_p "-" t)
+  end.
+
+Definition strip_default (p : gparam) : gparam :=
+  if is_life p then p
+  else mkGP (gp_kind p) (gp_attrs p) (gp_name p) (cut_default (gp_rest p) 0 false) (gp_bounds p).
+
+(** [impl<..Param>] for an entraited trait, whose generic parameters are the user's: the lifetimes, then the
+    application's type parameter, then the other parameters without their defaults *)
+Definition trait_impl_params (params : list gparam) : list gparam :=
+  filter is_life params ++ [impl_t_param false] ++
+  map strip_default (filter (fun p => negb (is_life p)) params).
+
 Definition impl_params (with_impl_t self_by_value : bool) (params : list gparam) : list gparam :=
   (if with_impl_t then [impl_t_param self_by_value] else []) ++ params.
 
